@@ -60,7 +60,7 @@ def _expand(item):
     return out, viols
 
 
-PER_KEY_CAP = 2000
+PER_KEY_CAP = 200
 
 
 class _CappedViols(list):
